@@ -93,6 +93,12 @@ FINDINGS = [
     dict(id="KF-C02-call-site-variants", property="C02", status="fixed", commit="9bca83d",
          what="helper call signatures were only recorded on the right-hand side of assignments (mon.write(half(2.5)) / show(2.5) bound the int variant and truncated); with int+float or bool+String variants a bare double / string literal made the call ambiguous or chose the wrong overload",
          cases=[prog("C02", c02.PRO + "\n".join(c02.HELPERS + c02.HEAD) + "\nmon.write(half(2.5))\nmon.write(idf(a * 0.5))\nr1 = idf(3)\nr2 = idf(2.5)\nmon.write(r2)\n", [{"passes": 0, "ar": {"A0": [3]}}], "float arguments at non-assignment call sites; int and float variants of one helper", space="P")]),
+    dict(id="KF-C07-silent-drop", property="C07", status="fixed", commit="20ac550",
+         what="statements the parser did not understand were silently dropped ('x[0] = v', 'a = b = 3', one-line 'if x: y = 1', 'del x', unknown device methods, device calls inside a helper defined before the device, multi-line calls fragment by fragment)", cases=[]),
+    dict(id="KF-C07-block-headers-and-semicolons", property="C07", status="fixed", commit="b6b4e01",
+         what="headers of unsupported blocks ('with', 'class', 'for x in items', while-'else:', 'finally:', decorators) were skipped and their bodies ran in the enclosing block; of 'a = 1; b = 2' only the first statement was translated", cases=[]),
+    dict(id="KF-C07-layout", property="C07", status="fixed", commit="1b5ed5f",
+         what="a comment line at a smaller indentation ended the enclosing block; a trailing comment on a nested 'else:'/'elif'/'except' header hid the branch; optional spaces ('led . toggle ( )', 'range (3)', 'target ( \"COM3\" )') made the dispatch miss the statement", cases=[]),
     # ---------------------------------------------------------------- open
     dict(id="KF-C02-first-assignment-wins", property="C02", status="open", commit=None,
          what="a name is declared with the C++ type of its FIRST assignment: a later float assigned to an int name is truncated, an int assigned to a bool name becomes 1, and an if-branch int / else-branch float takes the first branch's type",
